@@ -1163,6 +1163,9 @@ class Suspender(Interrupter):
 
         framer = main.framer #to speed up
 
+        if aux in self._act.frame.auxes:
+            return None # also a plain auxiliary of this frame so it is entered, run and exited with the frame
+
         if aux.done: #not active
 
             console.profuse("Attempt segue from {0} to aux {1}\n".format(main.name, aux.name))
